@@ -27,6 +27,8 @@ static int64_t rp_i64(const char *name, int64_t dflt) { return (int64_t)rp_u64(n
 static double rp_f64(const char *name, double dflt)
 {
     const char *s = rp_str(name); if (!s) return dflt;
+    if (!strncmp(s, "f64:", 4)) { uint64_t b = strtoull(s + 4, 0, 16); double d; memcpy(&d, &b, 8); return d; }
+    if (!strncmp(s, "f32:", 4)) { uint32_t b = (uint32_t)strtoul(s + 4, 0, 16); float f; memcpy(&f, &b, 4); return f; }
     if (!strncmp(s, "+INFINITY", 9) || !strncmp(s, "INFINITY", 8) || !strncmp(s, "+inf", 4)) return 1.0 / 0.0;
     if (!strncmp(s, "-INFINITY", 9) || !strncmp(s, "-inf", 4)) return -1.0 / 0.0;
     if (strstr(s, "NAN") || strstr(s, "nan")) return 0.0 / 0.0;
